@@ -28,4 +28,11 @@ theorem stream_shape (cap : Nat) (hs : Bytes) (acts : List Act) (s : St)
 theorem enqueue_nonblocking (cap : Nat) (s : St) (f : Bytes) : (step cap s (.enqueue f)).isSome = true := by
   simp only [step]; split <;> rfl
 
+
+/-- T2 structure facts: the operation order of the two writer goroutines (one socket write / one WebSocket message per dequeued frame; close on error) -/
+theorem writer_source :
+    Gen.seq_tcpConn_writing = ["conn.closed", "select", "recv:conn.closeCh", "recv:conn.writeCh", "conn.conn.Write", "conn.Close", "recv:t.C", "conn.conn.Write", "conn.Close"] ∧
+    Gen.seq_wsConn_writing = ["select", "recv:conn.closeCh", "recv:conn.writeCh", "conn.closed", "conn.conn.WriteMessage", "conn.Close"] :=
+  ⟨rfl, rfl⟩
+
 end OAP.C12
